@@ -93,3 +93,29 @@ package keeper
 //@     && p.GenesisPool == $pGenesis[owner][j] && !p.Withdrawn.IsNil()
 //@     && p.Withdrawn == $pW[owner][j] + wdOf($pIL[owner][j], $pS[owner][j], $pW[owner][j], $pLockEnd[owner][j], $blockTime))
 //@   decreases len(accVestingPools.VestingPools) - \i
+//@
+//@ // a second withdrawal in the same block pays nothing: after the first one every matured pool has no remainder
+//@ lemma secondWithdrawalPaysZero(il [int]int, s [int]int, w [int]int, w2 [int]int, le [int]int, t int, n int)
+//@   induction n
+//@   requires n >= 0 && (forall i :: {w2[i]} 0 <= i && i < n ==> w2[i] == w[i] + wdOf(il[i], s[i], w[i], le[i], t))
+//@   ensures sumWd(il, s, w2, le, t, n) == 0
+//@   prop C06
+//@
+//@ // the pool query reports, per pool, exactly what CalculateWithdrawable gives for the stored pool at the block time,
+//@ // i.e. the summands of what WithdrawAllAvailable pays in the same block
+//@ func (k Keeper) VestingPools(goCtx, req) (resp, err)
+//@   ensures req != nil && $pFound[req.Owner] ==> err == nil && resp != nil && len(resp.VestingPools) == $pLen[req.Owner]
+//@     && (forall i :: {resp.VestingPools[i]} 0 <= i && i < len(resp.VestingPools) ==> resp.VestingPools[i] != nil
+//@        && resp.VestingPools[i].Withdrawable == intString(wdOf($pIL[req.Owner][i], $pS[req.Owner][i], $pW[req.Owner][i], $pLockEnd[req.Owner][i], $blockTime))
+//@        && resp.VestingPools[i].CurrentlyLocked == intString($pIL[req.Owner][i] - $pS[req.Owner][i] - $pW[req.Owner][i])
+//@        && resp.VestingPools[i].Name == $pName[req.Owner][i] && resp.VestingPools[i].LockEnd == $pLockEnd[req.Owner][i])
+//@   ensures req == nil || !$pFound[req.Owner] ==> err != nil
+//@   prop C06
+//@ loop Keeper.VestingPools#1
+//@   invariant 0 <= \i && \i <= len(accountVestingPools.VestingPools) && len(result.VestingPools) == \i
+//@   invariant forall j :: {accountVestingPools.VestingPools[j]} 0 <= j && j < len(accountVestingPools.VestingPools) ==> poolEq(accountVestingPools.VestingPools[j], req.Owner, j)
+//@   invariant forall j :: {result.VestingPools[j]} 0 <= j && j < \i ==> result.VestingPools[j] != nil
+//@        && result.VestingPools[j].Withdrawable == intString(wdOf($pIL[req.Owner][j], $pS[req.Owner][j], $pW[req.Owner][j], $pLockEnd[req.Owner][j], $blockTime))
+//@        && result.VestingPools[j].CurrentlyLocked == intString($pIL[req.Owner][j] - $pS[req.Owner][j] - $pW[req.Owner][j])
+//@        && result.VestingPools[j].Name == $pName[req.Owner][j] && result.VestingPools[j].LockEnd == $pLockEnd[req.Owner][j]
+//@   decreases len(accountVestingPools.VestingPools) - \i
